@@ -5,21 +5,79 @@ From Coq Require Import List NArith PArith Bool Lia Arith FMapPositive.
 From Argot Require Import Lang.MuSSA Model.Andersen.
 Import ListNotations.
 
-Lemma label_eqb_spec a b : label_eqb a b = true <-> a = b.
+Module PMF := PositiveMap.
+
+Lemma succ_pos_inj a b : N.succ_pos a = N.succ_pos b -> a = b.
+Proof. intros H. rewrite <- (N.pos_pred_succ a), <- (N.pos_pred_succ b), H. reflexivity. Qed.
+
+Lemma succ_pos_pred p : N.succ_pos (Pos.pred_N p) = p.
 Proof.
-  destruct a, b; simpl; split; intros H; try discriminate; try congruence.
-  - apply andb_true_iff in H. destruct H as [H1 H2]. apply Pos.eqb_eq in H1. apply N.eqb_eq in H2. congruence.
-  - inversion H; subst. rewrite Pos.eqb_refl, N.eqb_refl. reflexivity.
-  - apply andb_true_iff in H. destruct H as [H1 H2]. apply Pos.eqb_eq in H1. apply Pos.eqb_eq in H2. congruence.
-  - inversion H; subst. rewrite !Pos.eqb_refl. reflexivity.
-  - apply Pos.eqb_eq in H. congruence.
-  - inversion H; subst. apply Pos.eqb_refl.
+  destruct p; simpl; auto. rewrite Pos.succ_pred_double. reflexivity.
 Qed.
 
-Lemma lmem_spec l ls : lmem l ls = true <-> In l ls.
+Lemma mem1_spec m a : mem1 m a = true <-> exists u, PMF.find a m = Some u.
+Proof. unfold mem1. destruct (PMF.find a m); split; eauto; try discriminate. intros [u H]; discriminate. Qed.
+
+Lemma keys2_spec m a b : In (a, b) (keys2 m) <-> mem2 m a b = true.
 Proof.
-  induction ls as [|x r IH]; simpl; [split; [discriminate|contradiction]|].
-  rewrite orb_true_iff, IH, label_eqb_spec. reflexivity.
+  unfold keys2, mem2, mem1. rewrite in_flat_map. split.
+  - intros ((a', m') & Hin & Hb). apply PMF.elements_complete in Hin. simpl in Hb.
+    apply in_map_iff in Hb. destruct Hb as ((b', u) & E & Hb). simpl in E. inversion E; subst.
+    apply PMF.elements_complete in Hb. rewrite Hin, Hb. reflexivity.
+  - destruct (PMF.find a m) as [m'|] eqn:E1; [|discriminate].
+    destruct (PMF.find b m') as [u|] eqn:E2; [|discriminate]. intros _.
+    exists (a, m'). split; [apply PMF.elements_correct; auto|]. simpl.
+    apply in_map_iff. exists (b, u). split; auto. apply PMF.elements_correct; auto.
+Qed.
+
+Lemma ls_mem_spec l s : ls_mem l s = true <-> In l (ls_elements s).
+Proof.
+  unfold ls_elements. rewrite !in_app_iff, !in_map_iff. destruct l as [a o|a t|f]; simpl.
+  - split.
+    + intros H. left. exists (a, N.succ_pos o). simpl. rewrite N.pos_pred_succ. split; auto. apply keys2_spec; auto.
+    + intros [((a', b') & E & H)|[((a', b') & E & H)|((a', b') & E & H)]]; simpl in E; try discriminate.
+      inversion E; subst. rewrite succ_pos_pred. apply keys2_spec; auto.
+  - split.
+    + intros H. right; left. exists (a, t). split; auto. apply keys2_spec; auto.
+    + intros [((a', b') & E & H)|[((a', b') & E & H)|((a', b') & E & H)]]; simpl in E; try discriminate.
+      inversion E; subst. apply keys2_spec; auto.
+  - split.
+    + intros H. right; right. apply mem1_spec in H. destruct H as [u H]. exists (f, u). split; auto.
+      apply PMF.elements_correct; auto.
+    + intros [((a', b') & E & H)|[((a', b') & E & H)|((a', b') & E & H)]]; simpl in E; try discriminate.
+      inversion E; subst. apply mem1_spec. exists b'. apply PMF.elements_complete; auto.
+Qed.
+
+Lemma mem1_add m a a' : mem1 (PMF.add a tt m) a' = true <-> a' = a \/ mem1 m a' = true.
+Proof.
+  unfold mem1. destruct (Pos.eq_dec a' a) as [->|N].
+  - rewrite PMF.gss. split; auto.
+  - rewrite PMF.gso by auto. split; [auto|intros [H|H]; [congruence|auto]].
+Qed.
+
+Lemma mem2_add2 m a b a' b' : mem2 (add2 m a b) a' b' = true <-> (a' = a /\ b' = b) \/ mem2 m a' b' = true.
+Proof.
+  unfold mem2, add2. destruct (Pos.eq_dec a' a) as [->|N].
+  - rewrite PMF.gss. rewrite mem1_add. destruct (PMF.find a m) as [m'|].
+    + split; [intros [->|H]; auto|intros [[_ ->]|H]; auto].
+    + assert (He : forall x, mem1 (PMF.empty unit) x = false) by (intros x; unfold mem1; rewrite PMF.gempty; reflexivity).
+      rewrite He. split; [intros [->|H]; [auto|discriminate]|intros [[_ ->]|H]; [auto|discriminate]].
+  - rewrite PMF.gso by auto. split; [auto|intros [[H _]|H]; [congruence|auto]].
+Qed.
+
+Lemma ls_add_spec l s l' : ls_mem l' (ls_add l s) = true <-> l' = l \/ ls_mem l' s = true.
+Proof.
+  destruct l as [a o|a t|f]; destruct l' as [a' o'|a' t'|f']; simpl;
+    try (split; [intros H; right; exact H|intros [H|H]; [discriminate|exact H]]).
+  - rewrite mem2_add2. split.
+    + intros [[-> H]|H]; auto. apply succ_pos_inj in H. subst; auto.
+    + intros [H|H]; auto. inversion H; subst. auto.
+  - rewrite mem2_add2. split.
+    + intros [[-> ->]|H]; auto.
+    + intros [H|H]; auto. inversion H; subst. auto.
+  - rewrite mem1_add. split.
+    + intros [->|H]; auto.
+    + intros [H|H]; auto. inversion H; subst. auto.
 Qed.
 
 Lemma pmem_spec x xs : pmem x xs = true <-> In x xs.
@@ -31,7 +89,7 @@ Qed.
 Lemma holdsb_spec F x : holdsb F x = true <-> holds (interp F) x.
 Proof.
   destruct x; simpl.
-  - apply lmem_spec.
+  - apply ls_mem_spec.
   - reflexivity.
   - apply pmem_spec.
 Qed.
@@ -250,8 +308,6 @@ Section Facts.
 End Facts.
 
 (* ------------------------------------------------------------------------------------ add_fact and the solver *)
-Module PMF := PositiveMap.
-
 Lemma get2_set2_same m a b ls : get2 (set2 m a b ls) a b = ls.
 Proof. unfold get2, set2. rewrite PMF.gss. rewrite PMF.gss. reflexivity. Qed.
 
@@ -263,34 +319,40 @@ Proof.
   - rewrite PMF.gso by auto. reflexivity.
 Qed.
 
+Lemma gets_add_same (m : PMF.t lset) a ls : gets (PMF.add a ls m) a = ls.
+Proof. unfold gets. rewrite PMF.gss. reflexivity. Qed.
+
+Lemma gets_add_other (m : PMF.t lset) a ls a' : a' <> a -> gets (PMF.add a ls m) a' = gets m a'.
+Proof. intros N. unfold gets. rewrite PMF.gso by auto. reflexivity. Qed.
+
 Lemma get1_add_same {A} (m : PMF.t (list A)) a ls : get1 (PMF.add a ls m) a = ls.
 Proof. unfold get1. rewrite PMF.gss. reflexivity. Qed.
 
 Lemma get1_add_other {A} (m : PMF.t (list A)) a ls a' : a' <> a -> get1 (PMF.add a ls m) a' = get1 m a'.
 Proof. intros N. unfold get1. rewrite PMF.gso by auto. reflexivity. Qed.
 
-Lemma succ_pos_inj a b : N.succ_pos a = N.succ_pos b -> a = b.
-Proof. intros H. rewrite <- (N.pos_pred_succ a), <- (N.pos_pred_succ b), H. reflexivity. Qed.
+Lemma in_elements_add l s l' : In l' (ls_elements (ls_add l s)) <-> l' = l \/ In l' (ls_elements s).
+Proof. rewrite <- !ls_mem_spec. apply ls_add_spec. Qed.
 
 Lemma add_fact_holds x F y : holds (interp (add_fact x F)) y <-> y = x \/ holds (interp F) y.
 Proof.
   unfold add_fact. destruct (holdsb F x) eqn:E.
   - apply holdsb_spec in E. split; [auto|]. intros [->|H]; auto.
   - destruct x as [[f r|s off|f] l|f|cs g]; destruct y as [[f' r'|s' off'|f'] l'|f'|cs' g']; simpl;
-      try (split; [intros H; right; exact H|intros [H|H]; [discriminate|exact H]]).
+      try (split; [intros H; right; exact H|intros [H|H]; [discriminate|exact H]]); unfold fpts; simpl.
     + destruct (Pos.eq_dec f' f) as [->|N1]; [destruct (Pos.eq_dec r' r) as [->|N2]|].
-      * rewrite get2_set2_same. simpl. split; [intros [<-|H]; auto|intros [H|H]; [inversion H; auto|auto]].
+      * rewrite get2_set2_same. rewrite in_elements_add. split; [intros [->|H]; auto|intros [H|H]; [inversion H; auto|auto]].
       * rewrite get2_set2_other by congruence. split; [auto|intros [H|H]; [inversion H; congruence|auto]].
       * rewrite get2_set2_other by congruence. split; [auto|intros [H|H]; [inversion H; congruence|auto]].
     + destruct (Pos.eq_dec s' s) as [->|N1]; [destruct (N.eq_dec off' off) as [->|N2]|].
-      * rewrite get2_set2_same. simpl. split; [intros [<-|H]; auto|intros [H|H]; [inversion H; auto|auto]].
+      * rewrite get2_set2_same. rewrite in_elements_add. split; [intros [->|H]; auto|intros [H|H]; [inversion H; auto|auto]].
       * rewrite get2_set2_other.
         -- split; [auto|intros [H|H]; [inversion H; congruence|auto]].
         -- intros H. inversion H. apply N2. apply succ_pos_inj in H1. exact H1.
       * rewrite get2_set2_other by congruence. split; [auto|intros [H|H]; [inversion H; congruence|auto]].
     + destruct (Pos.eq_dec f' f) as [->|N1].
-      * rewrite get1_add_same. simpl. split; [intros [<-|H]; auto|intros [H|H]; [inversion H; auto|auto]].
-      * rewrite get1_add_other by auto. split; [auto|intros [H|H]; [inversion H; congruence|auto]].
+      * rewrite gets_add_same. rewrite in_elements_add. split; [intros [->|H]; auto|intros [H|H]; [inversion H; auto|auto]].
+      * rewrite gets_add_other by auto. split; [auto|intros [H|H]; [inversion H; congruence|auto]].
     + unfold freach; simpl. destruct (Pos.eq_dec f' f) as [->|N1].
       * rewrite PMF.gss. split; auto.
       * rewrite PMF.gso by auto. split; [auto|intros [H|H]; [inversion H; congruence|auto]].
@@ -299,11 +361,19 @@ Proof.
       * rewrite get1_add_other by auto. split; [auto|intros [H|H]; [inversion H; congruence|auto]].
 Qed.
 
-Lemma fold_add_holds xs F y : holds (interp (fold_right add_fact F xs)) y <-> In y xs \/ holds (interp F) y.
+Lemma add_all_cons x xs Fc :
+  add_all (x :: xs) Fc = if holdsb (fst (add_all xs Fc)) x then add_all xs Fc else (add_fact x (fst (add_all xs Fc)), true).
+Proof. reflexivity. Qed.
+
+Lemma add_all_holds xs Fc y : holds (interp (fst (add_all xs Fc))) y <-> In y xs \/ holds (interp (fst Fc)) y.
 Proof.
-  induction xs as [|x xs IH]; simpl.
-  - split; [auto|intros [[]|H]; auto].
-  - rewrite add_fact_holds, IH. split; [intros [->|[H|H]]; auto|intros [[<-|H]|H]; auto].
+  induction xs as [|x xs IH].
+  - simpl. split; [auto|intros [[]|H]; auto].
+  - rewrite add_all_cons. destruct (holdsb (fst (add_all xs Fc)) x) eqn:E.
+    + rewrite IH. apply holdsb_spec in E.
+      assert (E' : In x xs \/ holds (interp (fst Fc)) x) by (apply IH; exact E).
+      simpl. split; [intros [H|H]; auto|intros [[<-|H]|H]; auto].
+    + cbn [fst]. rewrite add_fact_holds, IH. simpl. split; [intros [->|[H|H]]; auto|intros [[<-|H]|H]; auto].
 Qed.
 
 Definition result_sol (r : result) : fsol := match r with Done F => F | OutOfFuel F => F end.
@@ -311,27 +381,100 @@ Definition result_sol (r : result) : fsol := match r with Done F => F | OutOfFue
 Theorem solve_closed fuel P : forall F0 F, solve fuel P F0 = Done F -> closed P (interp F).
 Proof.
   induction fuel as [|k IH]; intros F0 F H; simpl in H; [discriminate|].
-  destruct (forallb (holdsb F0) (conseq P F0)) eqn:E.
-  - inversion H; subst. apply check_closed_sound. exact E.
+  destruct (snd (round P F0)).
   - eapply IH; eauto.
+  - destruct (check_closed P (fst (round P F0))) eqn:E; [|discriminate].
+    inversion H; subst. apply check_closed_sound. exact E.
 Qed.
 
-(* everything the solver derives (even when it runs out of fuel) lies in every closed solution above the start *)
-Theorem solve_least fuel P S : closed P S -> forall F0, below F0 S -> below (result_sol (solve fuel P F0)) S.
-Proof.
-  intros HS. induction fuel as [|k IH]; intros F0 HB; simpl; [exact HB|].
-  destruct (forallb (holdsb F0) (conseq P F0)); [exact HB|].
-  apply IH. intros x Hx. apply fold_add_holds in Hx. destruct Hx as [Hx|Hx]; [|auto].
-  eapply conseq_forced; eauto.
-Qed.
+(* every fact the solver adds is forced in every closed solution above the current one *)
+Section Least.
+  Variable P : prog.
+  Variable S : sol.
+  Hypothesis HS : closed P S.
+
+  Lemma add_all_below xs Fc : below (fst Fc) S -> all_hold S xs -> below (fst (add_all xs Fc)) S.
+  Proof. intros HB Hx y Hy. apply add_all_holds in Hy. destruct Hy as [Hy|Hy]; auto. Qed.
+
+  Lemma step_instr_below f fn blk i Fc :
+    In (f, fn) (funcs P) -> reach S f -> In blk (fblocks fn) -> In i (binstrs blk) ->
+    below (fst Fc) S -> below (fst (step_instr P f Fc i)) S.
+  Proof.
+    intros Hf Hr Hb Hi HB. unfold step_instr. apply add_all_below; auto.
+    eapply instr_facts_forced; eauto. destruct HS as [_ H]. destruct (H _ _ Hf Hr _ Hb) as [Hok _]. auto.
+  Qed.
+
+  Lemma fold_instrs_below f fn blk : In (f, fn) (funcs P) -> reach S f -> In blk (fblocks fn) ->
+    forall is Fc, (forall i, In i is -> In i (binstrs blk)) -> below (fst Fc) S ->
+    below (fst (fold_left (step_instr P f) is Fc)) S.
+  Proof.
+    intros Hf Hr Hb. induction is as [|i is IH]; intros Fc Hsub HB; simpl; auto.
+    apply IH; [intros j Hj; apply Hsub; right; auto|].
+    eapply step_instr_below; eauto. apply Hsub; left; auto.
+  Qed.
+
+  Lemma step_block_below f fn blk Fc :
+    In (f, fn) (funcs P) -> reach S f -> In blk (fblocks fn) -> below (fst Fc) S -> below (fst (step_block P f Fc blk)) S.
+  Proof.
+    intros Hf Hr Hb HB. unfold step_block.
+    assert (H1 : below (fst (fold_left (step_instr P f) (binstrs blk) Fc)) S) by (eapply fold_instrs_below; eauto).
+    apply add_all_below; auto.
+    destruct HS as [_ H]. destruct (H _ _ Hf Hr _ Hb) as [_ Ht].
+    destruct (bterm blk); simpl; try apply all_hold_nil. eapply flow_forced; eauto.
+  Qed.
+
+  Lemma fold_blocks_below f fn : In (f, fn) (funcs P) -> reach S f ->
+    forall bs Fc, (forall b, In b bs -> In b (fblocks fn)) -> below (fst Fc) S ->
+    below (fst (fold_left (step_block P f) bs Fc)) S.
+  Proof.
+    intros Hf Hr. induction bs as [|b bs IH]; intros Fc Hsub HB; simpl; auto.
+    apply IH; [intros j Hj; apply Hsub; right; auto|].
+    eapply step_block_below; eauto. apply Hsub; left; auto.
+  Qed.
+
+  Lemma step_func_below Fc ffn : In ffn (funcs P) -> below (fst Fc) S -> below (fst (step_func P Fc ffn)) S.
+  Proof.
+    destruct ffn as [f fn]. intros Hf HB. unfold step_func; simpl.
+    destruct (freach (fst Fc) f) eqn:E; auto.
+    eapply fold_blocks_below; eauto. apply (HB (FReach f)). exact E.
+  Qed.
+
+  Lemma fold_funcs_below : forall fs Fc, (forall x, In x fs -> In x (funcs P)) -> below (fst Fc) S ->
+    below (fst (fold_left (step_func P) fs Fc)) S.
+  Proof.
+    induction fs as [|x fs IH]; intros Fc Hsub HB; simpl; auto.
+    apply IH; [intros j Hj; apply Hsub; right; auto|].
+    apply step_func_below; auto. apply Hsub; left; auto.
+  Qed.
+
+  Lemma round_below F : below F S -> below (fst (round P F)) S.
+  Proof.
+    intros HB. unfold round. apply fold_funcs_below; auto.
+    apply add_all_below; auto. intros x Hx. apply in_map_iff in Hx. destruct Hx as (r & <- & Hr).
+    destruct HS as [H _]. simpl. auto.
+  Qed.
+
+  Theorem solve_least fuel : forall F0, below F0 S -> below (result_sol (solve fuel P F0)) S.
+  Proof.
+    induction fuel as [|k IH]; intros F0 HB; simpl; [exact HB|].
+    pose proof (round_below F0 HB) as HR.
+    destruct (snd (round P F0)); [apply IH; auto|].
+    destruct (check_closed P (fst (round P F0))); exact HR.
+  Qed.
+End Least.
 
 Lemma below_empty S : below empty_fsol S.
 Proof.
-  intros [[f r|s off|f] l|f|cs g]; simpl; unfold get2, get1, freach, fedges, get1; simpl; rewrite ?PMF.gempty; try contradiction; try discriminate.
+  intros [[f r|s off|f] l|f|cs g]; simpl; unfold fpts, fset, get2, gets, freach, fedges, get1; simpl;
+    rewrite ?PMF.gempty; simpl; try contradiction; try discriminate.
 Qed.
 
 Theorem analyze_least fuel P S : closed P S -> below (result_sol (analyze fuel P)) S.
 Proof. intros H. apply solve_least; auto. apply below_empty. Qed.
+
+(* the previous, purely naive formulation remains available as a lemma: all immediate consequences are forced *)
+Lemma conseq_forced_all P F S : closed P S -> below F S -> all_hold S (conseq P F).
+Proof. intros. eapply conseq_forced; eauto. Qed.
 
 Theorem analyze_closed fuel P F : analyze fuel P = Done F -> closed P (interp F).
 Proof. apply solve_closed. Qed.
